@@ -30,7 +30,7 @@ def pool_spec(draw):
         cons.append(dict(kind=draw(st.sampled_from(["box_abs", "box_lo", "box_hi"])), vars=[i]))
     nc = draw(st.integers(2, 6))
     for _ in range(nc):
-        kind = draw(st.sampled_from(["ineq", "ineq", "eq", "abs", "max", "novar"]))
+        kind = draw(st.sampled_from(["ineq", "ineq", "eq", "abs", "max", "novar", "sumabs", "abs_plus_max"]))
         k = draw(st.integers(1, min(3, nv)))
         vs = draw(st.permutations(list(range(nv))))[:k]
         r = draw(st.integers(1, 2))
@@ -134,6 +134,11 @@ def build_pool(spec):
             cons.append(abs(f - b) <= c["slack"])
         elif kind == "max":
             cons.append(modeling.max(f - b, -2.0 * (f - b)) <= c["slack"])
+        elif kind == "sumabs":
+            # several piecewise-linear terms in one constraint (the general branch of the epigraph reformulation)
+            cons.append(modeling.sum(abs(f - b)) <= c["slack"])
+        elif kind == "abs_plus_max":
+            cons.append(abs(f - b) + modeling.max(f - b, -2.0 * (f - b)) + 0.5 * (f - b) <= c["slack"])
         else:
             raise AssertionError(kind)
     objs = []
@@ -166,6 +171,11 @@ class Exec:
         self.case = case
         self.spec = case["spec"]
         self.vars, self.cons, self.objs = build_pool(self.spec)
+        # pristine twins of every pool object, never handed to the edited op: the fresh op of a solve step is built from
+        # them, so that damage done to a constraint or objective object by an earlier step cannot hide on both sides
+        self.vars2, self.cons2, self.objs2 = build_pool(self.spec)
+        self.cvars = [sorted(v.name for v in c.variables()) for c in self.cons]
+        self.ovars = [sorted(v.name for v in _objvars(f)) for f in self.objs]
         init = [self.cons[i] for i in case["init_cons"]]
         obj = self.objs[case["init_obj"]]
         form = case["init_form"]
@@ -208,6 +218,15 @@ class Exec:
             if len(g) != len(w) or any(a is not b for a, b in zip(g, w)):
                 self.fail(where, "%s() has %d entries %s, model has %d %s" % (
                     name, len(g), [self._cid(c) for c in g], len(w), [self._cid(c) for c in w]))
+        # the pool objects themselves are not modified by anything the op does with them
+        for i, c in enumerate(self.cons):
+            now = sorted(v.name for v in c.variables())
+            if now != self.cvars[i] or any(not any(v is w for w in self.vars) for v in c.variables()):
+                self.fail(where, "constraint %d of the pool now involves the variables %s, it was built over %s" % (i, now, self.cvars[i]))
+        for i, f in enumerate(self.objs):
+            now = sorted(v.name for v in _objvars(f))
+            if now != self.ovars[i]:
+                self.fail(where, "objective %d of the pool now involves the variables %s, it was built over %s" % (i, now, self.ovars[i]))
         # returned lists are copies
         for getter in (o.inequalities, o.equalities, o.constraints, o.variables):
             l1 = getter()
@@ -299,7 +318,11 @@ class Exec:
         return p.status, (None if ov is None else float(ov[0]))
 
     def solve(self, fmt):
-        fresh = op(self.m_obj, list(self.m_ineq) + list(self.m_eq))
+        twin_obj = self.m_obj
+        for i, f in enumerate(self.objs):
+            if f is self.m_obj:
+                twin_obj = self.objs2[i]
+        fresh = op(twin_obj, [self.cons2[self._cid(c)] for c in list(self.m_ineq) + list(self.m_eq)])
         st2, v2 = self._solve1(fresh, fmt)
         st1, v1 = self._solve1(self.op, fmt)
         self.labels.add("solve:" + (st1 if isinstance(st1, str) else st1[1]))
